@@ -16,6 +16,7 @@ from vf.core.runner import hyp_collect
 from vf.gen import dexgen as g
 from vf.gen import dexstrat as ds
 
+ds.pin_hypothesis()
 SHRINK = not os.environ.get('VERIF_NOSHRINK')     # development switch (sensitivity runs): skip the shrink phase
 PROPERTY = 'C07'
 LEVEL = 'exploration'
